@@ -20,6 +20,7 @@ import collections
 import json
 import os
 import random
+import subprocess
 
 import kit
 
@@ -307,12 +308,108 @@ def validate(ctx, traces, cap):
             ctx.violation(sig, "the events observed on the real Restarter for behaviour %d (%s) are not a behaviour of Handover.tla: "
                           "stuck at event %s %s" % (t["id"], t["src"], at, r.reject[1]), {"trace": t, "tlc": r.violated})
     if dirty:
-        t = dirty[0]
+        t = min(dirty, key=lambda t: len(t["tr"]))
         ev = [{"a": a, "c": c, "x": x} for a, c, x in t["tr"]]
         r = ctx.validate_traces("hotrestart", "HandoverTrace", "Trace_Handover.cfg", ev, 0, timeout=300)
         ctx.cov["trace_cross_check"] = {"behaviour": t["id"], "src": t["src"], "tlc_accepts": bool(r.ok),
                                         "rejected_at": r.reject[0] if r.reject else None,
                                         "event": r.reject[1][:120] if r.reject else None}
+
+
+# --------------------------------------------------------------------------- the real binary
+
+def requests_of(b):
+    return [e["x"] for e in b["beh"] if e["a"] == "send"]
+
+
+def e2e_expectation(b):
+    """per request of a one-child behaviour: (request, reply, abstract parent state after it)."""
+    out, par = [], {"admin": True, "conf": True, "accepting": True, "terminated": False}
+    cur = None
+    for e in b["beh"]:
+        if e["a"] == "send":
+            cur = {"req": e["x"], "reply": None, "par": dict(par)}
+            out.append(cur)
+        elif e["a"] in ("step", "kill"):
+            par = dict(e["p"])
+            cur["par"] = dict(par)
+        elif e["a"] == "recv":
+            cur["reply"] = e["x"]
+    return out
+
+
+def run_e2e(ctx, behs):
+    binp = os.path.join(kit.BIN_DIR, "samaritan-c17")
+    p = subprocess.run(["go", "build", "-o", binp, "./cmd/samaritan"], cwd=kit.REPO, env=kit.goenv(),
+                       stdout=subprocess.PIPE, stderr=subprocess.STDOUT, text=True)
+    if p.returncode != 0:
+        raise kit.Inconclusive("cannot build cmd/samaritan: " + p.stdout[-1500:])
+    rnd = random.Random(ctx.seed + 17)
+    cand = []
+    for b in behs:
+        rq = requests_of(b)
+        if b["src"] != "seq" or not rq or any(e["a"] == "sendbad" for e in b["beh"]):
+            continue
+        if len(set(rq)) != len(rq) or ("term" in rq and rq[-1] != "term"):
+            continue   # each step once (the real instance guards admin/drain with sync.Once), terminate last
+        cand.append(b)
+    fixed = [["admin", "drain", "term"], ["conf", "admin", "drain", "term"]]
+    picked = [b for b in cand if requests_of(b) in fixed]
+    rest = [b for b in cand if requests_of(b) not in fixed]
+    rnd.shuffle(rest)
+    picked += rest[:(10 if ctx.thorough else 1)]
+    runs = [{"id": i, "kind": "scripted", "reqs": requests_of(b)} for i, b in enumerate(picked)]
+    runs.append({"id": len(runs), "kind": "realchild"})
+    infile = os.path.join(ctx.work, "e2e-runs.ndjson")
+    kit.write_ndjson(infile, runs)
+    rfile = os.path.join(ctx.work, "e2e.ndjson")
+    rc, so, se = ctx.harness(["c17-e2e", "-bin", binp, "-in", infile, "-out", rfile, "-work", ctx.work], timeout=600, allow_fail=True)
+    res = kit.read_ndjson(rfile) if os.path.exists(rfile) else []
+    if rc != 0 or len(res) != len(runs):
+        raise kit.Inconclusive("c17-e2e exited %d after %d of %d runs: %s" % (rc, len(res), len(runs), se[-1000:]))
+    infra = [r for r in res if r.get("infra")]
+    if infra:
+        raise kit.Inconclusive("c17-e2e: %s" % infra[0]["infra"])
+    found = collections.OrderedDict()
+    ok = 0
+    for run, r in zip(runs, res):
+        ctx.case(key=("e2e", run["kind"], run.get("reqs")), nontrivial=True)
+        ctx.cov["traces_validated_against_impl"] += 1
+        bad = []
+        if run["kind"] == "scripted":
+            exp = e2e_expectation(picked[run["id"]])
+            for i, x in enumerate(exp):
+                if i >= len(r["obs"]):
+                    bad.append(("e2e/step-effect-differs", "request %d (%s) could not be sent: the old process was gone" % (i + 1, x["req"])))
+                    break
+                o, par = r["obs"][i], x["par"]
+                want = {"reply": x["reply"], "adminUp": par["admin"], "accepting": par["accepting"],
+                        "estAlive": not par["terminated"], "alive": not par["terminated"]}
+                got = {k: o[k] for k in want}
+                if got != want:
+                    if x["req"] == "conf" and not o["alive"]:
+                        bad.append(("e2e/local-conf-request-kills-old-process",
+                                    "the real samaritan process dies when it gets the request to stop the local configuration store "
+                                    "(requests %s): %s; %s" % (run["reqs"], o.get("exit"), r.get("crash", "")[:300])))
+                    else:
+                        bad.append(("e2e/step-effect-differs", "after request %d (%s) of %s the real process shows %s, the model says %s; %s" % (
+                            i + 1, x["req"], run["reqs"], got, want, r.get("crash", "")[:200])))
+                    break
+                if par["terminated"] and o.get("exit") != "exit 0":
+                    bad.append(("e2e/step-effect-differs", "after terminate the old process ended with %s" % o.get("exit")))
+        else:
+            want = {"parentSteps": ["admin", "drain", "term"], "estDuring": True, "newServed": True, "parentExit": "exit 0", "childAlive": True}
+            got = {k: r.get(k) for k in want}
+            if got != want or r.get("crash"):
+                bad.append(("e2e/real-child-handover", "two real samaritan processes: observed %s, expected %s; %s" % (got, want, r.get("crash", "")[:200])))
+        if not bad:
+            ok += 1
+        for sig, text in bad:
+            found.setdefault(sig, []).append({"run": run, "result": r, "what": text})
+    for sig, lst in found.items():
+        ctx.violation(sig, "%s [%d run(s)]" % (lst[0]["what"], len(lst)), {"first": lst[0], "count": len(lst)})
+    ctx.cov["e2e"] = {"runs": len(runs), "as_modelled": ok, "scripted": [r["reqs"] for r in runs if r["kind"] == "scripted"]}
+    ctx.sample({"e2e_run": res[0]})
 
 
 # --------------------------------------------------------------------------- main
@@ -326,7 +423,9 @@ def run(ctx):
         "lengths are partitioned at the boundaries {0,1,2,3,255,256,258,513,4092,4093,4094,4095,65535} x {n-1,n,n+1}; type bytes 0..10 and 255",
         "payload content is a fill pattern (never a zero byte); the handlers ignore the payload",
         "the kernel's unix socket semantics are trusted (queued data stays readable after the writer closes; SIGTERM delivery to the own process)",
-        "the recording Instance stands for the real instance of cmd/samaritan (admin API, local configuration store, listeners)",
+        "the recording Instance stands for the real instance of cmd/samaritan in the sequence replays; the real instance (admin API, "
+        "listeners, process exit) is exercised by the end-to-end runs on the real binary only for a seeded handful of request sequences",
+        "a rejected frame is recognised by the Restarter's log line 'Read msg from child failed: incomplete data|invalid header'",
     ]
     W = 8 if ctx.thorough else 4
 
@@ -374,6 +473,9 @@ def run(ctx):
     hasterm = set(b["id"] for b in withterm)
     validate(ctx, [t for t in traces if t["id"] not in hasterm] + traces2, 260000 if ctx.thorough else 60000)
 
+    # 6. the steps on the real binary (real instance: admin API, listeners, process exit) and a real child
+    run_e2e(ctx, behs)
+
     ctx.cov["exhaustive"] = False
     ctx.cov["exhaustive_within_bounds"] = True
     ctx.cov["rule"] = (
@@ -384,4 +486,7 @@ def run(ctx):
         "parent, second child afterwards / overlapping), replayed with real SIGTERM and, for behaviours with a terminate, again with the "
         "package's kill variable recording; distinct by child-visible script; non-trivial = contains a drop, a malformed unit, an exit or "
         "at least two requests. Judged by: recorded Instance calls = requested steps once each in order, replies match, unknown -> unknown, "
-        "no reply and no step for a malformed unit, process alive, a later child completes admin/conf/drain/term.")
+        "no reply and no step for a malformed unit, process alive, a later child completes admin/conf/drain/term. "
+        "e2e: behaviours of one child with each request at most once (seeded choice + the child-side sequence of samaritan.go) on the real "
+        "cmd/samaritan binary, observed admin port / listening socket / established connection / process exit compared with the abstract "
+        "parent state of Handover.tla after every request; one run with a real second samaritan as the child.")
